@@ -1653,6 +1653,18 @@ def r_fixpoint(ctx) -> RuleResult:
             continue
         if not outs:
             raise AnalysisError(f"R-FIXPOINT: {fi.qualname} neither returns nor yields a partition on any path this rule follows")
+        if fs_.silent_ends:
+            # the driver can end without having handed out anything: its caller takes the last partition handed out
+            bounded = [lp for lp in own_walk(fi.node) if isinstance(lp, ast.For) and isinstance(lp.iter, ast.Call) and isinstance(lp.iter.func, ast.Name) and lp.iter.func.id == "range"
+                       and lp.iter.args and all(isinstance(a_, ast.Constant) for a_ in lp.iter.args)]
+            if bounded:
+                lp = bounded[0]
+                res.inst(fi.fq, short(lp, 60), "fail", detail="a fixed number of rounds, nothing handed out when they run out")
+                res.fail(Finding("R-FIXPOINT", fi.module.rel, fi.qualname, norm(lp.iter),
+                                 f"`for ... in {short(lp.iter)}` bounds the number of refinement rounds by a constant and nothing is handed out when the rounds run out: a molecule that needs more rounds "
+                                 "(a long chain) leaves the caller without a partition", line=lp.lineno))
+                continue
+            raise AnalysisError(f"R-FIXPOINT: {fi.qualname} can end without handing out a partition on some path; whether that path can be taken is not decided")
         pending = []
         for o in outs:
             t = o.term
